@@ -13,7 +13,9 @@
                               C12-tuple-arity-subclass), and the values of e under the semantics
                               (prim, castv, idxp, db)
      has_type sg v t          value v belongs to type t (subtype semantics)
-     sig_wf sg                ancestor tables transitively closed, object ancestors irreflexive *)
+     sig_wf sg                ancestor tables transitively closed, object ancestors irreflexive
+     ptrs, dbp                the links / properties of the user schema's object types (with their
+                              target types) and their values in the database instance *)
 From Coq Require Import List NArith ZArith Bool Permutation.
 From Verif.C12 Require Import Model Gen_StdSig Proofs.
 Import ListNotations.
@@ -28,15 +30,16 @@ Theorem C12_sound :
          (prim : bcall -> list (list value) -> list value)
          (castv : ty -> ty -> value -> list value)
          (idxp : ty -> value -> value -> list value)
-         (db : N -> list value),
+         (db : N -> list value) (ptrs : list (N * N * ty)) (dbp : N -> N -> list value),
   (forall bc vals,
       Forall2 (fun vs b => typed sg (barg_target b) vs) vals (bc_args bc) ->
       typed sg (bc_ret bc) (prim bc vals)) ->
   (forall a b v, typed sg b (castv a b v)) ->
   (forall t v i, typed sg t (idxp t v i)) ->
   (forall o, typed sg (TObj o) (db o)) ->
+  (forall a p t o id, find_ptr ptrs a p = Some t -> ob_sub sg o a = true -> typed sg t (dbp id p)) ->
   forall e t vs,
-    run sg s_int64 prim castv idxp db e = Ok (t, true, vs) ->
+    run sg s_int64 prim castv idxp db ptrs dbp e = Ok (t, true, vs) ->
     Forall (fun v => has_type sg v t = true) vs.
 Proof. exact run_sound. Qed.
 Print Assumptions C12_sound.
@@ -50,8 +53,10 @@ Theorem C12_type_independent_of_values :
          (prim1 prim2 : bcall -> list (list value) -> list value)
          (castv1 castv2 : ty -> ty -> value -> list value)
          (idxp1 idxp2 : ty -> value -> value -> list value)
-         (db1 db2 : N -> list value) (e : expr),
-  match run sg s_int64 prim1 castv1 idxp1 db1 e, run sg s_int64 prim2 castv2 idxp2 db2 e with
+         (db1 db2 : N -> list value) (ptrs : list (N * N * ty)) (dbp1 dbp2 : N -> N -> list value)
+         (e : expr),
+  match run sg s_int64 prim1 castv1 idxp1 db1 ptrs dbp1 e,
+        run sg s_int64 prim2 castv2 idxp2 db2 ptrs dbp2 e with
   | Ok (t1, c1, _), Ok (t2, c2, _) => t1 = t2 /\ c1 = c2
   | Err e1, Err e2 => e1 = e2
   | _, _ => False
@@ -68,16 +73,17 @@ Theorem C12_stmt_type_sound :
          (prim : bcall -> list (list value) -> list value)
          (castv : ty -> ty -> value -> list value)
          (idxp : ty -> value -> value -> list value)
-         (db : N -> list value),
+         (db : N -> list value) (ptrs : list (N * N * ty)) (dbp : N -> N -> list value),
   (forall bc vals,
       Forall2 (fun vs b => typed sg (barg_target b) vs) vals (bc_args bc) ->
       typed sg (bc_ret bc) (prim bc vals)) ->
   (forall a b v, typed sg b (castv a b v)) ->
   (forall t v i, typed sg t (idxp t v i)) ->
   (forall o, typed sg (TObj o) (db o)) ->
+  (forall a p t o id, find_ptr ptrs a p = Some t -> ob_sub sg o a = true -> typed sg t (dbp id p)) ->
   forall e t,
-    stmt_type_clean sg s_int64 e = Ok (t, true) ->
-    exists vs, run sg s_int64 prim castv idxp db e = Ok (t, true, vs) /\
+    stmt_type_clean sg s_int64 ptrs e = Ok (t, true) ->
+    exists vs, run sg s_int64 prim castv idxp db ptrs dbp e = Ok (t, true, vs) /\
                Forall (fun v => has_type sg v t = true) vs.
 Proof. exact stmt_type_sound. Qed.
 Print Assumptions C12_stmt_type_sound.
@@ -119,16 +125,18 @@ Theorem C12_std_sig_wf : sig_wf std_sig = true.
 Proof. exact std_sig_wf. Qed.
 Print Assumptions C12_std_sig_wf.
 
-(* [std_scalar_ids] = the non-abstract scalar types of the std library.
-   common type of two std scalars: when it exists, each operand is a subclass of it or
-   implicitly castable to it (upper bound) *)
-Theorem C12_std_common_upper_bound :
-  forall s q c, In s std_scalar_ids -> In q std_scalar_ids ->
-  find_common std_sig (TS s) (TS q) = Some c ->
-  (issub std_sig (TS s) c || impl_castable std_sig (TS s) c) = true /\
-  (issub std_sig (TS q) c || impl_castable std_sig (TS q) c) = true.
-Proof. exact std_common_upper_bound. Qed.
-Print Assumptions C12_std_common_upper_bound.
+(* [std_scalar_ids] = the non-abstract scalar types of the std library; [ty_over ids t]: t is
+   built over those scalars with arrays, tuples, named tuples, ranges / multiranges (of scalars),
+   object types and pseudo types, at any nesting depth.
+   The common implicitly-castable type used for set literals, UNION, ??, IF/ELSE, array literals
+   and polymorphic parameters is an upper bound: when it exists, each operand is implicitly
+   castable to it. *)
+Theorem C12_std_common_type_upper_bound :
+  forall a b c, ty_over std_scalar_ids a -> ty_over std_scalar_ids b ->
+  find_common std_sig a b = Some c ->
+  impl_castable std_sig a c = true /\ impl_castable std_sig b c = true.
+Proof. exact std_common_type_upper_bound. Qed.
+Print Assumptions C12_std_common_type_upper_bound.
 
 (* ... and it does not depend on the order of the operands (scalars) ... *)
 Theorem C12_std_common_symmetric :
@@ -160,13 +168,13 @@ Proof. exact example_semantics_ok. Qed.
 
 (* {1, 2.5} : float64, both elements cast *)
 Example C12_example_set :
-  run std_sig s_int64 prim_ex castv_ex idxp_ex db_ex (ESet [ELit s_int64; ELit s_float64])
+  run std_sig s_int64 prim_ex castv_ex idxp_ex db_ex [] dbp_ex (ESet [ELit s_int64; ELit s_float64])
   = Ok (TS s_float64, true, [VS s_float64 0; VS s_float64 0]).
 Proof. vm_compute. reflexivity. Qed.
 
 (* (1, [1, 2.5]) : tuple<int64, array<float64>> *)
 Example C12_example_tuple :
-  run std_sig s_int64 prim_ex castv_ex idxp_ex db_ex
+  run std_sig s_int64 prim_ex castv_ex idxp_ex db_ex [] dbp_ex
       (ETuple false [(0%N, ELit s_int64); (1%N, EArray [ELit s_int64; ELit s_float64])])
   = Ok (TTup false [(0%N, TS s_int64); (1%N, TArr (TS s_float64))], true,
         [VTup false [(0%N, VS s_int64 0); (1%N, VArr [VS s_float64 0; VS s_float64 0])]]).
@@ -174,12 +182,12 @@ Proof. vm_compute. reflexivity. Qed.
 
 (* 1 + 2.5 : float64 through the (float64, float64) overload, left operand cast *)
 Example C12_example_plus :
-  run std_sig s_int64 prim_ex castv_ex idxp_ex db_ex (EOp c_PLUS [ELit s_int64; ELit s_float64])
+  run std_sig s_int64 prim_ex castv_ex idxp_ex db_ex [] dbp_ex (EOp c_PLUS [ELit s_int64; ELit s_float64])
   = Ok (TS s_float64, true, [VS s_float64 0]).
 Proof. vm_compute. reflexivity. Qed.
 
 (* array_agg({1, 2.5}) is accepted with type array<float64> *)
 Example C12_example_array_agg :
-  stmt_type_clean std_sig s_int64 (ECall c_array_agg [ESet [ELit s_int64; ELit s_float64]] [])
+  stmt_type_clean std_sig s_int64 [] (ECall c_array_agg [ESet [ELit s_int64; ELit s_float64]] [])
   = Ok (TArr (TS s_float64), true).
 Proof. vm_compute. reflexivity. Qed.
